@@ -960,7 +960,11 @@ class NetworkGraph(AbstractBaseIR):
                                 _rhs_s = _subst(_rhs, expr_map)
                                 if "d/dt" in _lhs or "'" in _lhs:
                                     sv_flat = f'{_de_lhs_var(_lhs)}_edge{i}_flat'
-                                    eqs.append(f"{sv_flat}' = flatten1d({_rhs_s})")
+                                    if Nt * Ns == 1:
+                                        # a single edge state is a scalar at runtime
+                                        eqs.append(f"{sv_flat}' = vsum(flatten1d({_rhs_s}))")
+                                    else:
+                                        eqs.append(f"{sv_flat}' = flatten1d({_rhs_s})")
                                 else:
                                     expr_map[_lhs] = f"({_rhs_s})"
                             last_out = _od.get('output')
